@@ -141,7 +141,9 @@ def rebuild_atom(a):
     if isinstance(x, Poly):
       na.append(rebuild(x))
     elif isinstance(x, Atom):
-      na.append(rebuild_atom(x))
+      rx = rebuild_atom(x)
+      ra = rx.as_atom() if isinstance(rx, Poly) else None
+      na.append(ra if ra is not None else rx)   # bound variables and other atom-valued arguments stay atoms
     else:
       na.append(x)
   if a.kind in ("map",):
@@ -677,7 +679,8 @@ class Walker:
                 "frozenset", "format", "str", "bool", "float", "bytes", "bytearray", "hex", "round",
                 "math.sqrt", "math.log", "math.log2", "math.ceil", "math.floor", "any", "all", "iter", "next",
                 "itertools.zip_longest", "isinstance", "type", "repr", "ord", "chr", "dict", "map", "filter",
-                "math.exp", "math.erfc", "math.lgamma", "math.comb", "math.factorial", "id", "hash",
+                "math.exp", "math.erfc", "math.lgamma", "math.comb", "math.factorial", "id", "hash", "math.erf", "math.gamma",
+                "math.pow", "math.fabs", "math.isqrt", "math.log10", "math.log1p", "math.expm1",
                 "collections.defaultdict", "collections.Counter"):
         kw = [P("kw", k, as_poly(v)) for k, v in sorted(kwargs.items())]
         return mk(fn.split(".")[-1] if fn.startswith("math.") is False else fn, *(pa + kw))
